@@ -579,10 +579,18 @@ def const_value(e, fi, prog):
     if isinstance(e, ast.Constant) and isinstance(e.value, (int, float)) and not isinstance(e.value, bool):
         return e.value
     if isinstance(e, ast.Name):
+        if fi is not None:
+            from .trace import resolve
+
+            v = resolve(e, fi)
+            if v is not e:
+                return const_value(v, fi, prog)
         r = prog.lookup(fi, e.id) if fi is not None else None
         if isinstance(r, tuple) and r[0] == "const":
             return const_value(r[2], None, prog) if not isinstance(r[2], ast.Name) else None
         return None
+    if isinstance(e, ast.Attribute) and fi is not None and fi.cls is not None and isinstance(e.value, ast.Name) and e.value.id in ("self", "cls", fi.cls.name) and e.attr in fi.cls.attrs:
+        return const_value(fi.cls.attrs[e.attr], None, prog)
     if isinstance(e, ast.BinOp):
         a, b = const_value(e.left, fi, prog), const_value(e.right, fi, prog)
         if a is None or b is None:
